@@ -293,3 +293,38 @@ Theorem C08_mapor_kmn_parked_removes_example :
     mdeferred sC = ∅.
 Proof. exact mapor_kmn_example_closed. Qed.
 Print Assumptions C08_mapor_kmn_parked_removes_example.
+
+(** Map<K, MVReg> (MVReg leaves) WITHOUT key removes, op-based replication (no state merges), per-actor delivery with duplicates: a replica with per-actor (overtaking) delivery holds what a replica with causal delivery of the same ops holds; closed example
+    in which a write overtakes the write it observed (proofs/MapMVRegNK.v) *)
+From Crdt Require Import model.MVReg model.Map spec.System spec.OrswotSpec spec.OrswotSystem spec.Specs spec.MapSpec spec.MapSystem spec.MapMVRegSpec proofs.MapMVRegNK.
+Theorem C08_mapmv_per_actor_equals_causal (H : list (oprec (mop mvop))) :
+  mvhist_ok_nk H -> forall (s1 s2 : cmap (list (gmap N N * N))) (K : gset nat), mvreach_nk_causal H s1 K -> mvreach_nk H s2 K ->
+    kabs s1 = kabs s2 /\ forall k, mv_state_vals s1 k ≡ₚ mv_state_vals s2 k.
+Proof. exact (mapmv_causal_agree_nk H). Qed.
+Print Assumptions C08_mapmv_per_actor_equals_causal.
+
+Theorem C08_mapmv_overtaking_write_example :
+  exists (H : list (oprec (mop mvop))) (sX2 sX3 sX sY : cmap (list (gmap N N * N))) (K : gset nat),
+    H = [OpRec 1 (MUp (Dot 1 1) 7 (MVPut {[1 := 1]} 10)) ∅;
+         OpRec 2 (MUp (Dot 2 1) 8 (MVPut {[1 := 1; 2 := 1]} 20)) (∅ ∪ {[0%nat]});
+         OpRec 2 (MUp (Dot 2 2) 7 (MVPut {[1 := 1; 2 := 2]} 30)) (∅ ∪ {[0%nat]} ∪ {[1%nat]});
+         OpRec 1 (MUp (Dot 1 2) 7 (MVPut {[1 := 2]} 40)) (∅ ∪ {[0%nat]})] /\
+    mvhist_ok_nk_causal H /\ mvhist_ok_nk H /\
+    ~ adm_causal H ∅ 1%nat /\
+    mvreach_nk H sX2 (∅ ∪ {[1%nat]} ∪ {[2%nat]}) /\
+    mvreach_nk H sX3 (∅ ∪ {[1%nat]} ∪ {[2%nat]} ∪ {[0%nat]}) /\
+    mvreach_nk H sX (∅ ∪ {[1%nat]} ∪ {[2%nat]} ∪ {[0%nat]} ∪ {[3%nat]}) /\
+    K = ∅ ∪ {[1%nat]} ∪ {[2%nat]} ∪ {[0%nat]} ∪ {[3%nat]} /\
+    mvreach_nk_causal H sY K /\
+    mv_state_vals sX2 7 = [({[1 := 1; 2 := 2]}, 30)] /\
+    mv_state_vals sX3 7 = [({[1 := 1; 2 := 2]}, 30)] /\
+    mv_state_vals sX 7 = [({[1 := 1; 2 := 2]}, 30); ({[1 := 2]}, 40)] /\
+    mv_state_vals sY 7 = [({[1 := 1; 2 := 2]}, 30); ({[1 := 2]}, 40)] /\
+    mv_state_vals sX 8 = [({[1 := 1; 2 := 1]}, 20)] /\
+    rval (mvread (mv_state_vals sX 7)) = [30; 40] /\
+    mv_maximal (mv_writes (mv_proj (known_ops H K) 7)) = [({[1 := 1; 2 := 2]}, 30); ({[1 := 2]}, 40)] /\
+    mv_maximal (mv_writes (mv_proj (known_ops H (∅ ∪ {[1%nat]} ∪ {[2%nat]})) 7)) = [({[1 := 1; 2 := 2]}, 30)] /\
+    mapmv_vals_ok H K sX = true /\ mapmv_vals_ok H K sY = true /\ mkeyspec_ok H K sX = true /\
+    kabs sX = kabs sY /\ sX = sY.
+Proof. exact mapmv_nk_example. Qed.
+Print Assumptions C08_mapmv_overtaking_write_example.
